@@ -115,3 +115,65 @@ Proof.
   - apply forallb_map_to_list. intros s v Hl. specialize (Hvals s v Hl). cbn [snd].
     destruct v as [?|? ? ?|? [?|? ? ?|? ?]]; try reflexivity; contradiction.
 Qed.
+
+(* ---------- Plugin.Observation as a whole: what it returns passes ValidateObservation, never panics ---------- *)
+From DS Require Import OutcomeCodec OutcomeCodecProofs.
+
+Lemma verify_defs_empty codec_ok : verify_defs codec_ok ∅ = true.
+Proof. reflexivity. Qed.
+
+Lemma size_filter_wanted (wanted : gmap Z unit) (vals : gmap Z sval) :
+  (size (base.filter (fun kv : Z * sval => is_Some (wanted !! fst kv)) vals) <= size wanted)%nat.
+Proof.
+  rewrite <- (size_dom (D := gset Z) (base.filter _ vals)), <- (size_dom (D := gset Z) wanted).
+  apply subseteq_size. intros k Hk. apply elem_of_dom in Hk. destruct Hk as (v & Hv).
+  apply map_filter_lookup_Some in Hv. destruct Hv as [_ Hw]. cbn in Hw. apply elem_of_dom. exact Hw.
+Qed.
+
+Theorem plugin_observation_validates codec_ok cf seq prev_bytes now cache_att should_retire expected source_vals source_fails ob :
+  plugin_observation codec_ok cf seq prev_bytes now cache_att should_retire expected source_vals source_fails = Ok (Some ob) ->
+  (forall s v, source_vals !! s = Some v -> match v with STsv _ (SDec _) => True | STsv _ _ => False | _ => True end) ->
+  validate_observation codec_ok (c_has_pred cf) ob = true.
+Proof.
+  unfold plugin_observation. intros H Hvals.
+  destruct (seq <? 1); [discriminate|]. destruct (seq =? 1); [discriminate|].
+  destruct (decode_outcome (c_pver cf) prev_bytes) as [prev| |]; try discriminate.
+  destruct (now <? 0); [discriminate|].
+  destruct (bool_decide (o_stage prev = Retired)) eqn:Er.
+  { inversion H; subst. unfold validate_observation. cbn [ro_att ro_removes ro_updates ro_values].
+    rewrite verify_defs_empty. rewrite map_size_empty, map_to_list_empty. cbn [forallb length].
+    rewrite bool_decide_eq_true_2 by reflexivity. destruct (c_has_pred cf); vm_compute; reflexivity. }
+  destruct (verify_defs codec_ok (o_defs prev)) eqn:Ev; cbn [negb] in H; [|discriminate].
+  assert (Hatt : forall att, (if c_has_pred cf && bool_decide (o_stage prev = Staging) then cache_att else Ok []) = Ok att ->
+                 c_has_pred cf = false -> att = []).
+  { intros att Ha Hp. rewrite Hp in Ha. cbn in Ha. inversion Ha. reflexivity. }
+  destruct (if c_has_pred cf && bool_decide (o_stage prev = Staging) then cache_att else Ok []) as [att| |] eqn:Ea; try discriminate.
+  destruct should_retire as [retire| |]; try discriminate.
+  pose proof (honest_votes_validate codec_ok (c_has_pred cf) prev expected att retire now) as Hv.
+  destruct (honest_votes codec_ok prev expected) as [rm up] eqn:Eh. cbn [fst snd] in Hv.
+  destruct (bool_decide (o_defs prev = ∅)).
+  - inversion H; subst. apply Hv; [apply Hatt; reflexivity| |].
+    + rewrite map_size_empty. vm_compute. discriminate.
+    + intros s v Hl. rewrite lookup_empty in Hl. discriminate.
+  - destruct source_fails; [discriminate|]. inversion H; subst. apply Hv; [apply Hatt; reflexivity| |].
+    + pose proof (size_filter_wanted (unique_stream_set (o_defs prev)) source_vals) as Hs.
+      unfold verify_defs in Ev. rewrite !andb_true_iff in Ev. destruct Ev as [_ Hu]. rewrite length_unique_stream_ids in Hu. lia.
+    + intros s v Hl. apply map_filter_lookup_Some in Hl. destruct Hl as [Hl _]. exact (Hvals s v Hl).
+Qed.
+
+Theorem plugin_observation_no_panic codec_ok cf seq prev_bytes now cache_att should_retire expected source_vals source_fails :
+  is_panic cache_att = false -> is_panic should_retire = false ->
+  is_panic (plugin_observation codec_ok cf seq prev_bytes now cache_att should_retire expected source_vals source_fails) = false.
+Proof.
+  intros Ha Hr. unfold plugin_observation.
+  destruct (seq <? 1); [reflexivity|]. destruct (seq =? 1); [reflexivity|].
+  pose proof (decode_outcome_no_panic (c_pver cf) prev_bytes) as Hd.
+  destruct (decode_outcome (c_pver cf) prev_bytes) as [prev| |]; try discriminate; [|reflexivity].
+  destruct (now <? 0); [reflexivity|]. destruct (bool_decide (o_stage prev = Retired)); [reflexivity|].
+  destruct (negb (verify_defs codec_ok (o_defs prev))); [reflexivity|].
+  destruct (c_has_pred cf && bool_decide (o_stage prev = Staging)).
+  - destruct cache_att; try discriminate; [|reflexivity]. destruct should_retire; try discriminate; [|reflexivity].
+    destruct (honest_votes codec_ok prev expected). destruct (bool_decide (o_defs prev = ∅)); [reflexivity|]. destruct source_fails; reflexivity.
+  - destruct should_retire; try discriminate; [|reflexivity].
+    destruct (honest_votes codec_ok prev expected). destruct (bool_decide (o_defs prev = ∅)); [reflexivity|]. destruct source_fails; reflexivity.
+Qed.
